@@ -251,6 +251,18 @@ def gen_seeded(rng, tier):
         yield Case("cli_seeded", [st, "sample", "sites", "-l", str(rng.choice([1, max(1, L // 2), L])), "--consecutive=false", "--seed", s],
                    L >= 2, "seeded-sample-sites-scattered")
         yield Case("cli_seeded", [st, "mutate", "snvs", "-r", rng.choice(["0.25", "0.5", "0.1", "0.75", "1", "0"]), "--seed", s], True, "seeded-mutate-snvs")
+        # --- commands given as `cmd sub <flags>`: flags in random order, each present or left to its default -------------
+        frac = lambda: rng.choice(["0", "0.1", "0.25", "0.3", "0.5", "0.6", "0.75", "0.9", "1"] * 3 + ["1.5", "-0.5"])   # noqa: E731
+
+        def flags(*opts):
+            """opts: (names, value or None for a switch, probability of being present)"""
+            fl = [[rng.choice(names)] + ([] if v is None else [v]) for names, v, p in opts if rng.random() < p]
+            fl.append(["--seed", s])
+            rng.shuffle(fl)
+            return [x for f in fl for x in f]
+        yield Case("cli_seeded", [st, "shuffle", "sites"] + flags((["-r", "--rate"], frac(), 0.8), (["--rogue"], frac(), 0.6), (["--stable-rogues"], None, 0.4),
+                                                                  (["--rogue-file"], rng.choice(["none", "stdout", "-"]), 0.3)),
+                   n >= 2, "seeded-shuffle-sites")
 
 
 def gen(rng, tier):
